@@ -36,7 +36,16 @@ let run () = iter_lines (fun line ->
         let seg = txt "environment: {" @ List.concat (List.mapi (fun i (k, v) -> (if i > 0 then txt ", " else []) @ yaml_scalar k @ txt ": " @ yaml_quoted v) pairs) @ txt "}" in
         if not (contains one seg) then report "DIFF:one-liner" "the environment mapping is not written as the model writes it" line;
         List.iter (fun (k, v) ->
-          if read_scalar (yaml_scalar k) <> Some k || yaml_unquote (yaml_quoted v) <> Some v then report "BAD" "model round trip" line) pairs
+          if read_scalar (yaml_scalar k) <> Some k || yaml_unquote (yaml_quoted v) <> Some v then report "BAD" "model round trip" line) pairs;
+        (* the reference reader of flow mappings (C17_environment_reads_back) applied to what the implementation wrote *)
+        let rec after h = (match h with [] -> None | _ :: t -> if contains [] [] && (let p = txt "environment: " in
+            let rec pre a b = (match a, b with _, [] -> true | x :: a', y :: b' -> x = y && pre a' b' | [], _ -> false) in pre h p)
+            then Some (let rec drop n l = if n = 0 then l else (match l with [] -> [] | _ :: r -> drop (n - 1) r) in drop 13 h) else after t) in
+        (match after one with
+         | Some rest -> (match read_env rest with
+             | Some (m, _) -> if m <> pairs then report "DIFF:one-liner" "the reference reader does not read the written environment back as the pairs of the configuration" line
+             | None -> report "DIFF:one-liner" "the reference reader cannot read the written environment mapping" line)
+         | None -> ())
       end;
       if wp <> "-" then begin
         let p = text_of_hex (unx wp) in
